@@ -282,7 +282,8 @@ PROPS = {
              "reads of a Uint that reach a success value are dominated by a whole-value observer (R-LOWLIMB), and on every "
              "success path of the 26 Uint->primitive conversions each narrowing cast / left shift is value preserving for "
              "the limb interval the dominating checks leave -- bit_len / leading_zeros bounds, direct limb comparisons and "
-             "exact cast round-trip fixed points are understood (R-CASTFIT); (d) wrapping_to/saturating_to project the "
+             "exact cast round-trip fixed points are understood (R-CASTFIT), and the wrapped payload of FromUintError::Overflow "
+             "reads every limb the target type spans (R-CASTFIT/payload); (d) wrapping_to/saturating_to project the "
              "wrapped resp. maximum payload, saturating_from maps error kinds to MAX/ZERO (R-VARIANT); (e) TryFrom<u64> "
              "builds an error only where the argument's interval lies above 2^BITS - 1 and Ok only where it lies within, in "
              "every configuration (however the test is written), signed conversions produce ValueNegative exactly on "
@@ -294,14 +295,17 @@ PROPS = {
              "site in any configuration, the asserting from_limbs only behind a top-limb check (R-TOTAL); (b) byte-form "
              "writers keep values canonical (R-CANON); (c) checked_copy_* touch the buffer only behind the length guard "
              "(R-GUARD/buffers), and the slice parsers build a non-None result only where the slice is at most BYTES long "
-             "(R-GUARD/slice-length, interval of the slice length); (d) the slice parsers can fail in every configuration (R-FLAG/feasible-failure); (e) in a "
+             "(R-GUARD/slice-length, interval of the slice length), and copy_{le,be}_bytes_to hand at most BYTES bytes of the "
+             "caller's buffer to any writing callee (R-GUARD/write-extent); (d) the slice parsers can fail in every configuration (R-FLAG/feasible-failure); (e) in a "
              "build with arithmetic overflow checks (debug) no byte-form entry reaches an undischarged overflow assertion "
              "(R-TOTAL/overflow-checks on the -C overflow-checks=on MIR, 5 reviewed rows)",
              "digit order inside the loops, trimmed lengths (seeded C08-trimmed-length-arithmetic is reported only "
              "incidentally), round trip", rules_C08, ["digit order inside the loops", "trimmed lengths", "round trip"]),
     "C09": P("C09", "(a) the char->digit map of from_str_radix equals the documented alphabets on every cell of the "
              "partition of the whole char domain (exact abstract evaluation, 56 cells) and its image is exactly [0,36) "
-             "resp. [0,64); prefix table {0x,0X,0o,0O,0b,0B} and formatter PREFIX/MAX/WIDTH constants agree (R-TABLE); "
+             "resp. [0,64) (when the map is a function of a char parameter; otherwise not decided); no char is truncated by a "
+             "narrowing cast on its way to a digit (`c as u8` only behind an ASCII test; intervals); prefix table "
+             "{0x,0X,0o,0O,0b,0B} and formatter PREFIX/MAX/WIDTH constants agree where located (R-TABLE); "
              "(b) parsers and formatters reach no undischarged panic site (R-TOTAL); (c) from_base_* keep the carry and the "
              "`> MASK` test in the Overflow path and return canonical values (R-FLAG, R-CANON), and can fail in every "
              "configuration; (d) no parser/formatter entry reaches an arithmetic-overflow assertion in overflow-checked "
